@@ -1173,12 +1173,31 @@ def shrink(prop, trace):
         t = copy.deepcopy(trace)
         t["twin"] = None
         yield t
+    if trace.get("twin2"):
+        t = copy.deepcopy(trace)
+        t["twin2"] = None
+        yield t
+        if trace.get("shared_recorder"):
+            t = copy.deepcopy(trace)
+            t["shared_recorder"] = False
+            yield t
+        if trace["twin2"] != "reversals":
+            t = copy.deepcopy(trace)
+            t["twin2"] = "reversals"
+            yield t
     for cand in core.drop_chunks(lv, 2):
         t = copy.deepcopy(trace)
         t["levels"] = cand
         if t.get("twin"):
             t["twin"] = None
+        if t.get("twin2") and t["twin2"] != "reversals":
+            t["twin2"] = "reversals"        # a twin that follows the shrunk sequence
         yield t
+    if trace.get("twin2") and trace["twin2"] != "reversals":
+        for cand in core.drop_chunks(trace["twin2"], 2):
+            t = copy.deepcopy(trace)
+            t["twin2"] = cand
+            yield t
     if trace.get("twin"):
         for cand in core.drop_chunks(trace["twin"], 2):
             t = copy.deepcopy(trace)
